@@ -21,6 +21,7 @@ def sfByte (sf : Nat) (sup : Bool) : UInt8 := UInt8.ofNat (sf + (if sup then 128
 def sfOf (b : UInt8) : Nat := b.toNat % 128
 def supOf (b : UInt8) : Bool := decide (128 ≤ b.toNat)
 
+set_option linter.unusedVariables false in
 /-- cut a byte string into records of `k` bytes; `none` when it does not divide -/
 def chunksOf (k : Nat) (bs : Bytes) : Option (List Bytes) :=
   if h : bs = [] then some []
